@@ -61,7 +61,10 @@ class Query:
         self.pyfunc = pyfunc
         self.bounds = bounds
         self.expect_fail = list(expect_fail)
-        self.unreachable = []       # functions whose body is replaced by assert(false): only spurious fn-pointer candidates may name them
+        # functions whose body is replaced by assert(false)+assume(false): only spurious function-pointer candidates may name them.
+        # Default: the two 8-argument batch multipliers that CBMC lists as candidates for 8-argument nonce-function pointers; every W harness
+        # stubs their only real caller (ecmult_multi_var), so reaching them would be reported by the assert(false).
+        self.unreachable = ["secp256k1_ecmult_strauss_batch", "secp256k1_ecmult_pippenger_batch"]
         self.concrete = []          # [(assertion substring, C file under harness/, expected stdout substring)]
 
 
